@@ -61,7 +61,7 @@ Bodies(tier) ==
      \cup ElseClauses(small)
      \cup { <<>> }                                                     \* no return statement at all
      \cup Compounds(Compounds(B0(tiny), {2}) \cup Conds(tiny), {7})    \* depth 2
-     \cup (IF tier = "quick" THEN {} ELSE Compounds(Compounds(B0(small), small), small) \cup Elifs(exprs))
+     \cup (IF tier = "quick" THEN {} ELSE Compounds(Compounds(B0(tiny), small), tiny) \cup Elifs(exprs))
 
 (* ---------- annotated functions ---------- *)
 T0(k) == P!T0(k)
